@@ -8,6 +8,7 @@ import (
 	"context"
 	"fmt"
 	"math/rand"
+	"strings"
 )
 
 func nil2ctx() context.Context { return context.Background() }
@@ -364,6 +365,30 @@ func (g *Gen) intents() []intent {
 				m = pickS(g.rng, "GET", "POST", "DELETE", "PUT")
 			}
 			return one(g.req(b, m, "Logout", nil))
+		})
+		// a logged-in browser is made to send the logout route with another method that merely CLAIMS the
+		// configured one (query / form parameter, override headers): only the real method counts
+		add(2, func() []SymStep {
+			b, u, ok := g.loggedIn()
+			var out []SymStep
+			if !ok {
+				out = append(out, g.loginStep(b, u, Desc{K: "pw", U: u}, g.rng.Intn(2) == 0))
+			}
+			for _, m := range []string{"GET", "POST", "DELETE"} {
+				if m == c.LogoutMethod {
+					continue
+				}
+				s1 := g.req(b, m, "Logout", nil)
+				s1.Req.Query = []KV{{"_method", lit(pickS(g.rng, c.LogoutMethod, strings.ToLower(c.LogoutMethod)))}}
+				s2 := g.req(b, m, "Logout", nil)
+				s2.Req.Hdr = [][2]string{{"X-HTTP-Method-Override", c.LogoutMethod}}
+				out = append(out, s1, s2)
+				if m != "GET" {
+					s3 := g.req(b, m, "Logout", []KV{{"_method", lit(c.LogoutMethod)}})
+					out = append(out, s3)
+				}
+			}
+			return append(out, SymStep{Kind: "req", Req: &SymReq{Browser: b, Method: "GET", Route: "App", Arg: g.appVariant()}})
 		})
 	}
 	if c.has("register") {
@@ -1424,9 +1449,34 @@ func (g *Gen) next() []SymStep {
 	x := g.rng.Intn(tot)
 	for _, i := range l {
 		if x < i.w {
-			return i.f()
+			return g.decorate(i.f())
 		}
 		x -= i.w
 	}
 	return nil
+}
+
+// decorate: now and then a request carries something a front end, a framework convention or an attacker might add
+// and the library must ignore: a method-override header or `_method` parameter naming another method (the
+// configured logout method in particular), forwarding / identity headers.
+func (g *Gen) decorate(steps []SymStep) []SymStep {
+	for i := range steps {
+		r := steps[i].Req
+		if steps[i].Kind != "req" || r == nil || r.RawQuery != "" || g.rng.Intn(100) >= 6 {
+			continue
+		}
+		other := pickS(g.rng, g.cfg.LogoutMethod, "POST", "DELETE", "GET")
+		switch g.rng.Intn(4) {
+		case 0:
+			r.Query = append(append([]KV{}, r.Query...), KV{"_method", lit(other)})
+		case 1:
+			r.Hdr = append(r.Hdr, [2]string{"X-HTTP-Method-Override", other})
+		case 2:
+			r.Hdr = append(r.Hdr, [2]string{pickS(g.rng, "X-Forwarded-Host", "X-Forwarded-For", "X-Original-URL", "X-Forwarded-User", "X-Authenticated-User"),
+				pickS(g.rng, "evil.test", "/auth/logout", "alice@test.com", "127.0.0.1")})
+		default:
+			r.Hdr = append(r.Hdr, [2]string{"X-Method-Override", other}, [2]string{"Accept", "application/json"})
+		}
+	}
+	return steps
 }
